@@ -534,8 +534,9 @@ def _expected_tables(stmt):
 # ---------------- parse-shape guard: the trusted-base boundary (DESIGN 3.1)
 def ir_signature(stmt):
     """coarse signature of the IR: multiset of base table names, number of SELECTs, number of CTEs"""
-    names = []; counts = {"select": 0, "cte": 0}
+    names = []; counts = {"select": 0, "cte": 0}; aliases = []
     def item(f):
+        if getattr(f, "alias", None): aliases.append(f.alias.lower())
         if isinstance(f, T): names.append((f"{f.schema}.{f.name}" if f.schema else f.name).lower())
         elif isinstance(f, CteRef): names.append(f.name.lower())
         elif isinstance(f, Derived): query(f.q)
@@ -570,7 +571,9 @@ def ir_signature(stmt):
                 for j in g.joins:
                     item(j.item)
                     if j.cond and j.cond[0] == "on": pred(j.cond[1])
-            for it in q.items: expr(it.e)
+            for it in q.items:
+                if it.alias: aliases.append(it.alias.lower())
+                expr(it.e)
             pred(q.where); pred(q.having)
     s = stmt
     if isinstance(s, CteInsert):
@@ -582,14 +585,17 @@ def ir_signature(stmt):
     elif isinstance(s, Bare): query(s.q)
     elif isinstance(s, Update):
         names.append(tn(s.tgt))
+        if s.tgt.alias: aliases.append(s.tgt.alias.lower())
         for g in s.frm:
             item(g.first)
             for j in g.joins: item(j.item)
-    elif isinstance(s, Merge): names.append(tn(s.tgt)); item(s.src)
+    elif isinstance(s, Merge):
+        names.append(tn(s.tgt)); item(s.src)
+        if s.tgt.alias: aliases.append(s.tgt.alias.lower())
     elif isinstance(s, CreateLike): names.append(tn(s.tgt)); names.append(tn(s.src))
     elif isinstance(s, InsertValues): names.append(tn(s.tgt))
     else: return None
-    return sorted(names), counts["select"], counts["cte"]
+    return sorted(names), counts["select"], counts["cte"], sorted(aliases)
 
 
 def parse_signature(sql, dialect):
@@ -609,4 +615,9 @@ def parse_signature(sql, dialect):
     names.sort()
     nsel = sum(1 for _ in tree.recursive_crawl("select_statement"))
     ncte = sum(1 for _ in tree.recursive_crawl("common_table_expression"))
-    return names, nsel, ncte
+    aliases = []
+    for a in tree.recursive_crawl("alias_expression"):
+        ids = [x for x in a.segments if x.is_type("identifier", "naked_identifier", "quoted_identifier")]
+        if ids: aliases.append(ids[-1].raw.lower())
+        else: aliases.append(a.raw.lower())
+    return names, nsel, ncte, sorted(aliases)
